@@ -1534,4 +1534,10 @@ def rules(model: Model, tier: str) -> List[RuleResult]:
     _tuple_states(model, P)
     rules.extra_coverage = dict(order_conditions_checked=n_cond, exhaustive=True,
                                 exhaustive_note="every rooted tree up to the declared order of every scheme is enumerated; every statement of the four steppers/controllers is interpreted")
-    return [T, N, D, R, X, L, Z, I, V, P]
+    from ..rules import autograd as _ac
+    _R11 = RuleResult(PROP, "AC11", "every exit of the public functional returns the Function's output; forward's solution comes only from the dispatched implementation; operands unchanged", min_instances=2)
+    for _cn in ['_SolveIVP']:
+        _fc = _ac.get_fncls(model, _cn)
+        _ac.ac11_wrapper_returns(model, _fc, _R11)
+        _ac.ac11_forward_provenance(model, _fc, _R11)
+    return [T, N, D, R, X, L, Z, I, V, P, _R11]
